@@ -86,6 +86,8 @@ def generate(rng, index, tier):
     if index % 991 == 5:
         # an operation whose END was lost, thousands of later records of that thread, then the thread starts another one
         n = worlds.LONG_SIZES[(index // 991) % len(worlds.LONG_SIZES)]
+        if (index // 991) % 3 == 2:
+            n = worlds.dict_size(rng, 70000 if tier == 'quick' else 270000) or n      # right at a count the source names
         ctx = worlds.Ctx(0, 300)
         first = worlds.op_long_window(rng, 'BSC_read', n)
         first['noend'] = rng.chance(0.7)
